@@ -171,19 +171,22 @@ add('C08', 'proof', 'Lean 4 theorems: IsDistance with d = n_k_d[2] for ALL sizes
     'strips, and by running the verified search through the compiled driver on the REAL stabilizer / logical matrices (with a '
     'stabilizer-derived basis of N(S)/S, so a dropped generator is detected) plus an independent numpy search on larger sizes.',
     TB + 'Modelled rather than verified: n_k_d and the stabilizer/logical matrices of every family (tie shared with C07).')
-add('C10', 'proof', 'Lean 4 theorems about the coset-probability specification (partition, sample independence, ML optimality) + exact-rational vs float comparison of every coset probability of the real decoders',
-    'Spec side proved for any code satisfying a named CodeSpec (independent generators, commutation, normaliser = <S,L>): the '
-    'span enumeration is exact and duplicate-free, the syndrome class is the disjoint union of the 4^k cosets so coset '
-    'probabilities sum to Pr(syndrome), another sample permutes cosets, returning an arg-max coset is optimal among all '
-    'functions of the syndrome and the decoders\' own rule does so, the Y-decoder quantity equals the coset probability under '
-    'pure-Y noise — 13 theorems over any ordered commutative semiring. That the real tensor-network contraction computes '
-    'these numbers is NOT proved (no Lean network model; float/mpf arithmetic): on every run each coset probability returned '
-    'by the real untruncated decoders (planar MPS/RMPS/Y, rotated planar MPS/RMPS, colour 6.6.6 MPS; modes c/r/a) is compared '
-    'with the exact rational value from the Lean driver within 1e-11 relative, and the decoded class with the exact arg-max '
-    'where the gap exceeds 1e-9; all syndromes for the smallest codes, sampled above.',
-    TB + 'Exactness of the contraction is bounded on explored inputs only (worst relative deviation observed 2e-14); '
-    'CodeSpec.h_norm is assumed (C07 supplies independence and commutation).')
-
+add('C10', 'proof', 'Lean 4 theorems: coset-probability specification (partition, ML optimality) AND, for four decoder networks (planar MPS, planar RMPS incl. its shared-contraction optimisation, rotated-planar MPS, colour 6.6.6 MPS), modelled network contraction = exact coset probability for all sizes; float-vs-exact comparison of the real decoders',
+    'Spec side (any code satisfying CodeSpec, discharged for planar / rotated planar / colour / basic codes from C07 + normaliser '
+    'completeness): the syndrome class is the disjoint union of the 4^k cosets, coset probabilities sum to Pr(syndrome), '
+    'another sample permutes cosets, returning an arg-max coset is optimal among all functions of the syndrome. Network side: '
+    'the tensor networks built by PlanarMPSDecoder, PlanarRMPSDecoder, RotatedPlanarMPSDecoder and Color666MPSDecoder are '
+    'modelled tensor by tensor (shapes, None padding, node values, leg order); a generic factor-graph identity (delta '
+    'stabilizer tensors + qubit tensors = sum over the stabilizer group; dimension-2 and dimension-4 legs) gives exactValue '
+    '= cosetProb, and with C11 the modelled sweeps the decoders use (by column, by row, right-to-left, the colour decoder\'s '
+    'bra/ket split, the RMPS shared partial contraction with its column bookkeeping) return exactly the coset probabilities, '
+    'for ALL sizes — 56 theorems. NOT proved: that the float / mpf arithmetic of the real contraction stays close to the exact '
+    'value (bounded per run: every coset probability within 1e-11 relative, arg-max class where the gap > 1e-9, incl. strong '
+    'noise and the zero / single-defect syndromes), and RotatedPlanarRMPSDecoder\'s network (not modelled). Tie: every tensor '
+    'of the real create_tn equals the model tensor exactly; recorded contraction bookkeeping; exact spec value from the real '
+    'stabilizer matrices.',
+    TB + 'IEEE-754 / mpmath evaluation of the contractions is explored, not proved; RotatedPlanarRMPS network and all '
+    'truncating (chi / tol) contractions are outside the model.')
 add('C19', 'proof', 'Lean 4 theorems about a model of the CLI decision logic (spec scanner, literal-only arguments, validators, delegation, output protocol) + in-process and subprocess CLI-vs-API differential',
     'Proved about the model for all inputs: the name(args) scanner accepts exactly the regex language and recovers name and '
     'argument text; a non-literal / unparsable argument is a usage error and the constructor is never invoked; validators '
@@ -211,32 +214,36 @@ add('C06', 'proof', 'Lean 4 theorems about a stream-threaded run model and an LR
     TB + 'History independence of the real caches is explored (metamorphic differential whose oracle is the implementation '
     'in a fresh process), not proved; PCG64 and numpy choice consumption as in C17.')
 
-add('C02', 'proof', 'Lean 4 theorems: pairing theorem + recovery-reproduces-syndrome for the path-composed decoders with the matching as a universally quantified parameter; verified monitor on every registry decoder',
-    'Proved for all lattice sizes, all syndromes and ANY perfect matching of the modelled graph: the XOR of lattice paths over '
-    'a matching has syndrome exactly the defect set (pairing theorem, generic over a path interface), hence the planar MWPM '
-    'recovery (graph incl. nearest virtual plaquettes and the extra node on odd totals; a perfect matching always exists), the '
-    'planar CMWPM recovery (max_iterations >= 1), the toric MWPM recovery (even defect count per lattice), the sample '
-    'recoveries of the planar / rotated-planar / colour 6.6.6 tensor-network decoders and any product with logicals or '
-    'stabilizers, and the naive decoder (sound; complete on syndromes; guard) reproduce the syndrome and never fail; the '
-    'monitor recoveryOk decides the property for all errors with that syndrome at once — 17 theorems (+ instances that '
-    'discharge the C15 / C07 interface hypotheses). The rotated SMWPM decoders and the planar Y decoder internals are NOT '
-    'modelled: every registry decoder is run on real syndromes (all syndromes of the smallest codes, errors of every weight '
-    'on larger ones, all parameterisations and context models) and judged by the verified monitor in Python and in Lean. '
-    'Tie for the modelled part: exact comparison of sample_recovery, of the recorded gt.mwpm graph and matching, and of the '
-    'final recovery given the recorded matching. PlanarCMWPMDecoder(max_iterations=0) is a known finding.',
-    TB + 'networkx matching is a parameter (any perfect matching); SMWPM x2 and planar-Y are explored with a verified oracle.')
-add('C03', 'proof', 'Lean 4 theorems: run-level algebra (XOR of rows = syndrome of the total error), reachable-input characterisation, time-parity / result-constructor logic; whole FTP decoders explored with a verified monitor, exhaustively on the smallest reachable domains',
-    'Proved: "recovery has the syndrome of the total error" is equivalent to the checkable synd(S, r) = XOR of all rows for '
-    'every T and flip pattern; the arrays the simulation can hand to an FTP decoder are exactly those whose row-XOR is a '
-    'syndrome in the model\'s support (0<q<1; row-wise for q in {0,1}), with executable witnesses; tparity (0 iff 2|b-a| <= T, '
-    'periodic, symmetric, T=1 never time-like), measurement t-parities, the rotated-toric result constructor (recovery '
-    'passed through, exactly two custom values, non-zero only with success=False, single step / itp never time-like, raises '
-    'iff the documented inputs are missing), composition of symmetry and cluster stages — 16 theorems. The matching-graph '
-    'construction and clustering inside the two SMWPM decoders are NOT modelled: they are run through run_once_ftp and '
-    'directly on every reachable array of the smallest lattices (T<=3), over sizes, T, p, q corners, finite / infinite bias, '
-    'and judged by the verified monitor (Python and Lean), plus no-raise / no-None / no codespace warning.',
-    TB + 'Whole-decoder claim rests on exploration with a Lean-verified oracle (exhaustive on the smallest domains).')
-
+add('C02', 'proof', 'Lean 4 theorems: recovery reproduces the syndrome for EVERY lattice decoder construction with the matching universally quantified (MWPM, CMWPM, both symmetry-matching decoders, tensor-network sample recoveries, planar Y for R>=C), naive decoder; verified monitor on every registry decoder',
+    'Proved for all lattice sizes, all syndromes and ANY perfect matching(s) of the modelled graph(s): the XOR of lattice paths '
+    'over a matching has syndrome exactly the defect set (pairing theorem); hence the planar MWPM recovery (graph incl. '
+    'nearest virtual plaquettes and the extra node on odd totals; a perfect matching always exists), planar CMWPM '
+    '(max_iterations >= 1), toric MWPM, and — with graphs, clustering (_clusters never fails for perfect matchings: "Cluster is '
+    'not a closed loop" characterised), cluster paths, corner fusing and the final XOR all inside the model — the rotated-planar '
+    'and rotated-toric SMWPM decoders in ideal and FTP mode; the sample recoveries of the planar / rotated-planar / colour '
+    '6.6.6 tensor-network decoders and any product with logicals; the planar Y decoder (snake fills, destabilisers, residual '
+    'look-up table sound and total) for all R >= C with gcd(R,C) != 1 and every Y-only error (other shapes: kernel-evaluated '
+    'small sizes + exact tie); the naive decoder (sound, complete, guard); the monitor recoveryOk decides the property for all '
+    'errors with that syndrome at once. C15/C07 interface hypotheses are discharged (Props/C02/Instances.lean) — 59 theorems. '
+    'Tie: exact comparison of sample_recovery, recorded gt.mwpm graphs / matchings / clusters / stage recoveries / final '
+    'recovery given the recorded matchings, the Y decoder\'s cached operators and residual table; and every registry decoder run '
+    'on real syndromes (all syndromes of the smallest codes, every weight on larger ones, all parameterisations and context '
+    'models) judged by the verified monitor in Python and in Lean. PlanarCMWPMDecoder(max_iterations=0) is a known finding.',
+    TB + 'networkx matching is a parameter (any perfect matching); edge weights are not modelled (irrelevant to C02); '
+    'planar Y for R < C or co-prime sizes rests on the exact tie + monitor.')
+add('C03', 'proof', 'Lean 4 theorems: for every size, T, step errors and measurement flips, the modelled FTP decoders return a recovery with the syndrome of the total error for ANY perfect matchings; reachable-input characterisation; time-parity / result-constructor logic; exhaustive small-domain exploration of the real decoders',
+    'Proved: ftp_rotated_planar_returns_to_codespace and ftp_rotated_toric_returns_to_codespace — for all sizes, all T >= 1, all '
+    'step-error sequences and all periodic measurement-flip patterns, whatever perfect matchings gt.mwpm returns for the '
+    'symmetry graph and the cluster graph, the modelled decode_ftp (graphs, clustering, paths, final XOR inside the model) '
+    'returns a recovery r with synd(r) = synd(total error), i.e. r XOR total error commutes with every stabilizer (composition '
+    'of the run-level algebra of C01 — XOR of rows = syndrome of the total error, flips cancel on the periodic axis — with the '
+    'SMWPM syndrome theorems); the arrays the simulation can hand to a decoder are exactly those whose row-XOR is a syndrome '
+    'in the model\'s support (with executable witnesses); tparity, measurement t-parities, the rotated-toric result '
+    'constructor (two custom values, non-zero only with success=False, single step / itp never time-like) — 20 theorems. '
+    'Not a theorem: that a perfect matching exists for every reachable array and that networkx returns one (checked per '
+    'decode). Tie: recorded graphs / matchings / clusters / recoveries compared exactly with the model; run_once_ftp and direct '
+    'decode_ftp on every reachable array of the smallest lattices (T<=3) judged by the verified monitor.',
+    TB + 'edge weights and gt.mwpm are not modelled (any perfect matching suffices for this property).')
 NOT_YET = {}
 
 
